@@ -60,9 +60,15 @@ func NewClient(protoOptions protocol.ProtocolOptions, cfg *Config) *Client {
 		entry.Timeout = c.config.AcquireTimeout
 		stateMap[stateAcquiring] = entry
 	}
-	if entry, ok := stateMap[stateBusy]; ok {
-		entry.Timeout = c.config.QueryTimeout
-		stateMap[stateBusy] = entry
+	for _, busyState := range []protocol.State{
+		stateBusyHasTx,
+		stateBusyNextTx,
+		stateBusyGetSizes,
+	} {
+		if entry, ok := stateMap[busyState]; ok {
+			entry.Timeout = c.config.QueryTimeout
+			stateMap[busyState] = entry
+		}
 	}
 	// Configure underlying Protocol
 	protoConfig := protocol.ProtocolConfig{
